@@ -344,3 +344,13 @@ Proof.
   destruct (run_ops max (sinit (spawn_count ops)) ops) as [[[s2 evs'] obs]|] eqn:R; try discriminate.
   inversion H; subst. exists (core s2). apply (run_ops_valid _ _ _ _ _ _ R).
 Qed.
+
+(* ---------------------------------------------------------------- configuration wiring *)
+
+Lemma config_wiring : forall rp b n,
+  (0 < n -> effective_max (mkCfg rp b n) = Some n) /\ (n = 0 -> effective_max (mkCfg rp b n) = None).
+Proof.
+  intros. unfold effective_max, register_routes, with_query_rate_limit, query_rate_limiter; simpl. split; intros H.
+  - destruct (0 <? n) eqn:L; auto. apply Nat.ltb_ge in L. lia.
+  - subst. reflexivity.
+Qed.
